@@ -230,7 +230,7 @@ Lemma m_get_rel av hs excl eids m i : forall e1 e2, env_rel e1 e2 ->
   snd (m_get av hs excl eids m i e1) = snd (m_get av hs excl eids m i e2) /\
   env_rel (fst (m_get av hs excl eids m i e1)) (fst (m_get av hs excl eids m i e2)).
 Proof.
-  induction m as [sid|sid touch d| |l|sid|m IH|sid mode selmod selrem d others|k mode d|sid]; intros e1 e2 H; cbn [m_get].
+  induction m as [sid|sid touch d| |l|sid|m IH|sid mode selmod selrem d others|k mode d|sid|bop ba bb]; intros e1 e2 H; cbn [m_get].
   - destruct (env_jact_rel e1 e2 sid (JRead i) H) as [X1 X2].
     destruct (env_jact e1 sid _) as [a1 t1]. destruct (env_jact e2 sid _) as [a2 t2]. cbn [fst snd] in *. subst. auto.
   - destruct (env_jact_rel e1 e2 sid (JAccess i touch d) H) as [X1 X2].
@@ -258,6 +258,7 @@ Proof.
     + split; [reflexivity | apply env_rel_fail; assumption].
   - destruct (env_jact_rel e1 e2 sid (JRemove i) H) as [X1 X2].
     destruct (env_jact e1 sid _) as [a1 t1]. destruct (env_jact e2 sid _) as [a2 t2]. cbn [fst snd] in *. subst. auto.
+  - cbn [fst snd]. auto.
 Qed.
 
 Lemma visit_members_rel av hs excl eids ms i : forall e1 e2, env_rel e1 e2 ->
